@@ -240,6 +240,28 @@ def c04e(ctx):
         ctx.fail(o, "(program)", "expected the 4 session methods set_input/update/refresh/commit, found %d" % found)
 
 
+def c04g(ctx):
+    """The phase lock is fair (a queued writer blocks later readers).  A computation therefore takes the read half exactly
+    once, at its entry point, and hands clones of that guard to everything it spawns; a nested acquisition under a held
+    guard dead-locks as soon as a writer queues up in between (reader waits for its task, task waits behind the writer,
+    writer waits for the reader)."""
+    prog = ctx.prog
+    o = ctx.ob("C04.g", "phase-lock/acquired-at-the-entry-points-only", "K3",
+               "acquire_active_computation_guard is called by the public read entry points (Engine::tracked, Engine::snapshot_graph_from) only, acquire_active_input_session_guard by Engine::input_session only")
+    n = 0
+    for pat, allowed in ((r"acquire_active_computation_guard$", ("Engine::tracked", "Engine::snapshot_graph_from")), (r"acquire_active_input_session_guard$", ("Engine::input_session",))):
+        sites = prog.callers_of(pat)
+        n += len(sites)
+        if not sites:
+            ctx.fail(o, "(program)", "anchor missing: no caller of %s" % pat.rstrip("$"))
+        for s_ in sites:
+            ctx.touch(s_.body)
+            if not any(s_.body.name == a or s_.body.name.startswith(a + "::") for a in allowed):
+                ctx.fail(o, s_, "%s acquires the phase lock again (only %s may): under a guard that is already held this dead-locks with a queued writer; spawned work must "
+                         "use a clone of the caller's guard" % (s_.body.name, " / ".join(allowed)))
+    o.sites = n
+
+
 def c04f(ctx):
     """An input session that is dropped without commit() commits itself in Drop — unless it believes it already has.  The
     flag has to start false and be raised by commit() only, else the dropped session's batch is dropped active (abort) and
@@ -263,6 +285,7 @@ def c04f(ctx):
 
 
 def run(ctx):
+    ctx.run_clause("C04.g", c04g)
     ctx.run_clause("C04.f", c04f)
     ctx.run_clause("C04.a", c04a)
     ctx.run_clause("C04.b", c04b)
